@@ -471,6 +471,7 @@ class Env(object):
         if k == "randomize":
             self.register_fields(o)
             btor_proxy.take_log()
+            btor_proxy.take_orders()
             btor_proxy.DOMAINS.clear()
             del self.hook_log[:]
             before = self.snapshot_obj(o)
@@ -501,7 +502,7 @@ class Env(object):
                 out = "exc:" + type(e).__name__
                 err = (str(e)[:200] + " | " + traceback.format_exc()[-700:])
             return {"outcome": out, "err": err, "before": before, "values": self.snapshot_obj(o),
-                    "log": btor_proxy.take_log(), "hooks": list(self.hook_log), "state": self.global_state(),
+                    "log": btor_proxy.take_log(), "orders": btor_proxy.take_orders(), "hooks": list(self.hook_log), "state": self.global_state(),
                     "domains": {str(k): v for k, v in btor_proxy.DOMAINS.items()},
                     "leaves_before": leaves_before, "leaves_after": [list(p) for p, _ in self.leaves(o)],
                     "lists": self.list_views(o)}
